@@ -8,6 +8,8 @@
 //   cd <hex userDefines> <undefs> <hex cfg> <hexsrc>
 //                                   Settings{userDefines, userUndefs} -> Preprocessor::getcode(cfg) (createDUI + simplecpp)
 //        -> "T <hex of the code, white space normalised>" | "E ..."
+//   mp <q> <hexsrc> <defs>+          one raw TokenList, one simplecpp::preprocess pass per <defs> (cppcheck: one pass per configuration)
+//        -> "M <T hex | E type:hexmsg> ..."   one result per pass
 //   inc <hexdir> <-I dirs> <--include files> <hex main file name>      real files: #include resolution through the real Preprocessor
 //        -> "T <hex of the code>" | "E ..."
 //   defs / undefs: comma separated hex strings, "-" = none
@@ -159,6 +161,29 @@ int main() {
                 } catch (const simplecpp::Output& o) {
                     std::cout << "E " << typeName(o.type) << ":" << hex(o.msg) << std::endl;
                 }
+            } else if (f[0] == "mp" && f.size() >= 4) {
+                // several passes of simplecpp::preprocess over the SAME raw TokenList (as cppcheck does, one pass per configuration):
+                // f[1] quirk flags (driver only), f[2] source, f[3..] the dui.defines of each pass
+                const std::string code = unhex(f[2]);
+                std::vector<std::string> files;
+                simplecpp::OutputList rawOut;
+                simplecpp::TokenList raw({code.data(), code.size()}, files, "t.c", &rawOut);
+                raw.removeComments();
+                std::string out = "M";
+                for (size_t k = 3; k < f.size(); ++k) {
+                    simplecpp::OutputList ol;
+                    simplecpp::DUI dui;
+                    for (const std::string& d : lst(f[k])) dui.defines.push_back(d);
+                    simplecpp::FileDataCache cache;
+                    simplecpp::TokenList o(files);
+                    simplecpp::preprocess(o, raw, files, cache, dui, &ol, nullptr, nullptr);
+                    simplecpp::cleanup(cache);
+                    const simplecpp::Output* e = firstError(ol);
+                    out += ' ';
+                    if (e) out += std::string("E") + typeName(e->type) + ":" + hex(e->msg);
+                    else out += "T" + hex(joinTokens(o));
+                }
+                std::cout << out << std::endl;
             } else if (f[0] == "inc" && f.size() == 5) {
                 // files on disk: Settings{includePaths (-I, as cmdlineparser stores them: with trailing /), userIncludes (--include)}
                 // -> Preprocessor::loadFiles (simplecpp::load) + getcode
